@@ -56,7 +56,7 @@ func (fl *Flow) GetType() internalTypes.FlowType {
 
 // GetContext returns the flow context.
 func (fl *Flow) GetExecutionContext() publicTypes.LunarContextI {
-	return fl.contextManager.GetLunarContext()
+	return fl.contextManager.NewExecutionContext()
 }
 
 // CleanExecution cleans the flow execution.
